@@ -1225,3 +1225,69 @@ def render_layouts(rng, prog, consts, n):
 def prog_line(prog, label, args, layouts):
     return "prog %s %d %s %d %s ## %s" % (label, len(args), " ".join(args), len(layouts),
                                            " ".join(s.encode("latin-1").hex() for s in layouts), to_sexp(prog))
+
+
+# --------------------------------------------------------------------------------------------
+# expression trees for the precedence tie (`tree` lines): operators only, atoms are distinct integers
+
+BINOPS = list(OPTEXT.keys())
+
+
+def gen_tree(rng, depth, counter):
+    if depth <= 0 or rng.random() < 0.2:
+        counter[0] += 1
+        return ("atom", counter[0])
+    c = rng.random()
+    if c < 0.2:
+        return ("un", rng.choice(["neg", "compl", "not"]), gen_tree(rng, depth - 1, counter))
+    return ("bin", rng.choice(BINOPS), gen_tree(rng, depth - 1, counter), gen_tree(rng, depth - 1, counter))
+
+
+def tree_tokens(e, need=0, redundant=0.0, rng=None):
+    """minimal-bracket token list (reference precedence); `redundant` adds superfluous brackets"""
+    t = e[0]
+    if t == "atom":
+        toks = ["a%d" % e[1]]
+        mine = PRIMARY
+    elif t == "un":
+        inner = e[2]
+        sub = tree_tokens(inner, PRIMARY if inner[0] != "bin" else 0, redundant, rng)
+        if inner[0] == "bin":
+            sub = ["("] + sub + [")"]
+        toks = [{"neg": "neg", "compl": "~", "not": "!"}[e[1]]] + sub
+        mine = UNARY_PREC
+    else:
+        p = PREC[e[1]]
+        toks = tree_tokens(e[2], p, redundant, rng) + [OPTEXT[e[1]]] + tree_tokens(e[3], p + 1, redundant, rng)
+        mine = p
+    if mine < need and t == "bin":
+        toks = ["("] + toks + [")"]
+    elif rng is not None and rng.random() < redundant:
+        toks = ["("] + toks + [")"]
+    return toks
+
+
+def tokens_to_source(toks, rng):
+    """concrete text of a token list (spacing rules of the lexer: unary minus is blank+'-' glued to its operand,
+    binary minus never has a blank only on its left)"""
+    out = "main:\nlocal.r = "
+    for i, t in enumerate(toks):
+        if t == "neg":
+            # two adjacent unary minus signs can only be lexed apart with a comment in between
+            out += "  -" + ("/**/" if i + 1 < len(toks) and toks[i + 1] == "neg" else "")
+        elif t.startswith("a") and t[1:].isdigit():
+            out += t[1:]
+        elif t == "-":
+            out += rng.choice(["-", " - ", "- "])
+        elif t in ("(", ")", "~", "!"):
+            out += t if rng.random() < 0.7 else (t + " " if t != ")" else " " + t)
+        else:
+            out += rng.choice([t, " " + t + " ", " " + t, t + " "])
+    return out + "\nend\n"
+
+
+def tree_line(rng, depth=5):
+    e = gen_tree(rng, depth, [0])
+    toks = tree_tokens(e, 0, rng.choice([0.0, 0.0, 0.15]), rng)
+    src = tokens_to_source(toks, rng)
+    return "tree %s ## %s" % (src.encode("latin-1").hex(), " ".join(toks)), e
